@@ -67,7 +67,8 @@ def _solution(K, na, r, ny, nu, nw, xi_unit, y_unit):
 def _instances():
     F, T = False, True
     return [(2, 0, 1, 1, 1, (F, F), (F,), 1), (2, 0, 2, 2, 1, (F, F), (F, F), 2), (2, 1, 1, 1, 1, (T, F), (F,), 1), (2, 1, 2, 1, 1, (T, F), (T, F), 1),
-            (3, 1, 1, 2, 1, (T, F, F), (F,), 2), (3, 1, 2, 2, 0, (F, T, F), (F, T), 1), (3, 2, 1, 1, 1, (T, T, F), (F,), 1), (1, 0, 1, 1, 1, (F,), (F,), 2)]
+            (3, 1, 1, 2, 1, (T, F, F), (F,), 2), (3, 1, 2, 2, 0, (F, T, F), (F, T), 1), (3, 2, 1, 1, 1, (T, T, F), (F,), 1), (1, 0, 1, 1, 1, (F,), (F,), 2),
+            (1, 1, 1, 1, 1, (T,), (T,), 1), (2, 2, 2, 2, 1, (T, T), (T, F), 0)]          # no stable root at all (random walks, local level): everything loaded on them is NaN
 
 
 @contract("C15", targets=[PC + "get_autocov_square", PC + "get_autocov_square_00", PC + "get_autocov_triangular_00", PC + "get_cov_triangular_00", PC + "get_cov_alpha_00",
@@ -104,7 +105,7 @@ def autocovariances_of_the_solved_model(K, na, r, ny, nu, nw, xi_unit, y_unit, o
     Hc, Suc, Swc = _cells(K, H, ny, nw), _cells(K, Su, nu, nu), _cells(K, Sw, nw, nw)
     sig_u = _mm(_mm(Pas, Suc), _tr(Pas))
     K.ensure("the Lyapunov solver receives the stable block of Ta", K.And(len(Al) == ns, *[K.real_eq(tz(Al[i][j]), Tas[i][j]) for i in range(ns) for j in range(ns)]))
-    K.ensure("... and Pa_s Sigma_u Pa_s'", K.And(*[K.real_eq(tz(Ql[i][j]), sig_u[i][j]) for i in range(ns) for j in range(ns)]))
+    K.ensure("... and Pa_s Sigma_u Pa_s'", K.And(True, *[K.real_eq(tz(Ql[i][j]), sig_u[i][j]) for i in range(ns) for j in range(ns)]))
     Om = [[X[i][j].t for j in range(ns)] for i in range(ns)]
     sig_w = _mm(_mm(Hc, Swc), _tr(Hc)) if nw else [[0] * ny for _ in range(ny)]
     n = na + ny
@@ -112,10 +113,14 @@ def autocovariances_of_the_solved_model(K, na, r, ny, nu, nw, xi_unit, y_unit, o
     cur = Om                                  # cov(alpha_s,t , alpha_s,t-j)
     for j, M in enumerate(acov):
         K.ensure(f"order {j}: shape", K.shape(M) == (n, n))
-        cxx = _mm(_mm(Uas, cur), _tr(Uas))
-        cxy = _mm(_mm(Uas, cur), _tr(Zas))
-        cyx = _mm(_mm(Zas, cur), _tr(Uas))
-        cyy = _mm(_mm(Zas, cur), _tr(Zas))
+        if ns:
+            cxx = _mm(_mm(Uas, cur), _tr(Uas))
+            cxy = _mm(_mm(Uas, cur), _tr(Zas))
+            cyx = _mm(_mm(Zas, cur), _tr(Uas))
+            cyy = _mm(_mm(Zas, cur), _tr(Zas))
+        else:               # no stable state at all: the stationary part is empty
+            cxx, cxy = [[0] * na for _ in range(na)], [[0] * ny for _ in range(na)]
+            cyx, cyy = [[0] * na for _ in range(ny)], [[0] * ny for _ in range(ny)]
         if j == 0:
             cyy = [[cyy[a][b] + sig_w[a][b] for b in range(ny)] for a in range(ny)]
         want = [cxx[a] + cxy[a] for a in range(na)] + [cyx[a] + cyy[a] for a in range(ny)]
@@ -126,7 +131,7 @@ def autocovariances_of_the_solved_model(K, na, r, ny, nu, nw, xi_unit, y_unit, o
                     K.ensure(f"order {j}: ({a},{b}) involves a variable loaded on a unit root: NaN", K.cell_is_nan(cell))
                 else:
                     K.ensure(f"order {j}: ({a},{b}) is cov(x_a,t , x_b,t-{j}) implied by the solution", K.And(K.Not(K.cell_is_nan(cell)), K.real_eq(K.cell_val(cell), want[a][b])))
-        cur = _mm(Tas, cur)
+        cur = _mm(Tas, cur) if ns else cur
 
 
 # ------------------------------------------------------------------------------ which variables are loaded on unit roots
